@@ -796,7 +796,13 @@ def _bypass_idiom(fx, kind, b, bb, t):
         w = [x for x, tt in b.calls(include_cleanup=False) if U.callee_name(tt) == 'wait_for_readers']
         fp = [x for x, tt in b.calls(include_cleanup=False) if _refcnt(tt, 'from_ptr')]
         ok = len(w) == 1 and len(fp) == 1 and b.dominates(w[0], bb) and b.dominates(bb, fp[0]) and b.origins(t['args'][0]) == {('arg', 1)}
-        return ok, 'wait_for_readers dominates forget(self) dominates from_ptr'
+        if not ok and len(w) == 1 and len(fp) == 1 and b.dominates(w[0], fp[0]) and b.dominates(fp[0], bb) and b.origins(t['args'][0]) == {('arg', 1)}:
+            # the other order (the owned value is made first, `self` forgotten right after): nothing that could unwind in between,
+            # or both the value and `self` would release the one count
+            after = b.reach_from(b.term(fp[0])['target'], unwind=False) if b.term(fp[0]).get('target') is not None else set()
+            between = [x for x in after if x != bb and bb in b.reach_from(x, unwind=False) and b.term(x)['k'] in ('call', 'drop', 'assert')]
+            ok = not between and b.postdominates(bb, fp[0])
+        return ok, 'wait_for_readers dominates forget(self) and from_ptr, nothing can unwind between the two'
     if kind in ('ManuallyDrop::new',) and fn in ('arc_swap::strategy::hybrid::HybridProtection::new', '<strategy::hybrid::HybridProtection as strategy::sealed::Protected>::from_inner'):
         return True, 'the protection keeps its pointer in a ManuallyDrop (released by Drop / into_inner)'
     if kind == 'ManuallyDrop::drop' and fn == '<strategy::hybrid::HybridProtection as std::ops::Drop>::drop':
